@@ -28,10 +28,15 @@ def sh(cmd, **kw):
 def do_import(wt, pid):
     mdir = os.path.join(wt, "mutants")
     for m in sorted(os.listdir(mdir)):
+        if not os.path.isdir(os.path.join(mdir, m)) or not os.path.exists(os.path.join(mdir, m, "patch.diff")):
+            continue
         dst = os.path.join(VERIF, "seeded", "%s_%s" % (pid, m))
         os.makedirs(dst, exist_ok=True)
         for f in ("patch.diff", "demo.py", "meta.json"):
             shutil.copy(os.path.join(mdir, m, f), os.path.join(dst, f))
+        for f in os.listdir(mdir):      # helper modules shared by the demos
+            if f.endswith(".py") and os.path.isfile(os.path.join(mdir, f)):
+                shutil.copy(os.path.join(mdir, f), os.path.join(dst, f))
         print("imported", dst)
 
 
